@@ -400,24 +400,39 @@ func registerEnvStubs(e *Engine) {
 	in["context.Background"] = func(fr *frame, a []value) value { return iface{} }
 
 	// ---------- encoding/json ----------
-	in["bytes.NewBuffer"] = func(fr *frame, a []value) value {
-		var cell value = nativeObj{a[0]}
-		return &cell
-	}
 	in["encoding/json.NewDecoder"] = func(fr *frame, a []value) value {
-		var cell value = nativeObj{"json.Decoder"}
+		var cell value = nativeObj{jsonDecoder{reader: a[0]}}
 		return &cell
 	}
 	in["(*encoding/json.Decoder).UseNumber"] = func(fr *frame, a []value) value { return nil }
 	in["(*encoding/json.Decoder).Decode"] = func(fr *frame, a []value) value {
 		ps := fr.i.ps
 		ps.env().logs = append(ps.env().logs, "json.Decode")
+		// what the decoder reads: the unread content of its reader (a *bytes.Buffer in this code base)
+		dec := (*a[0].(*value)).(nativeObj).v.(jsonDecoder)
+		var content value = "<<unknown reader>>"
+		var bufCell *value
+		if r, ok := dec.reader.(iface); ok {
+			if p, ok := r.v.(*value); ok && p != nil {
+				if st, ok := (*p).(structure); ok && len(st) >= 2 {
+					bufCell = p
+					content = bufferContent(fr.i.ps, st)
+				}
+			}
+		}
 		if ps.flagDecide("decode.err") {
+			// a failed Decode has consumed an arbitrary part of the input: all of it, or nothing
+			if bufCell != nil && ps.choose(2) == 0 {
+				drainBuffer(bufCell)
+			}
 			return errIface(fr.i, "stub: invalid character looking for beginning of value")
 		}
-		// the decoded document is opaque: Flatten (also a stub) is its only consumer
+		if bufCell != nil {
+			drainBuffer(bufCell)
+		}
+		// the decoded document is an uninterpreted function of the text that was read
 		dst := a[1].(iface).v.(*value)
-		*dst = iface{t: types.Typ[types.String], v: "<<decoded-json-document>>"}
+		*dst = iface{t: types.Typ[types.String], v: concatStr(ps, []value{"<<json:", content, ">>"})}
 		return iface{}
 	}
 	in["encoding/json.Marshal"] = func(fr *frame, a []value) value {
@@ -465,6 +480,13 @@ func registerEnvStubs(e *Engine) {
 		node := makeMap(types.Typ[types.String], 0).(*omap)
 		node.insert("@id", iface{t: types.Typ[types.String], v: "n1"})
 		node.insert("@type", iface{t: types.Typ[types.String], v: "http://example.org/C"})
+		if doc, ok := a[1].(iface); ok {
+			if tok, isStr := doc.v.(string); isStr {
+				node.insert("http://verif/doc", iface{t: types.Typ[types.String], v: tok})
+			} else if tok, isSym := doc.v.(sstr); isSym {
+				node.insert("http://verif/doc", iface{t: types.Typ[types.String], v: tok})
+			}
+		}
 		top := makeMap(types.Typ[types.String], 0).(*omap)
 		top.insert("@graph", iface{t: types.NewSlice(anyType), v: []value{iface{t: mt, v: node}}})
 		return tuple{iface{t: mt, v: top}, iface{}}
@@ -475,11 +497,8 @@ func registerEnvStubs(e *Engine) {
 	}
 
 	// ---------- OPA ----------
-	type regoOpt struct {
-		kind string
-		a, b value
-	}
 	mkOpt := func(o regoOpt) value { return &closure{Fn: nil, Env: []value{nativeObj{o}}} }
+	in["(github.com/open-policy-agent/opa/ast.Errors).Error"] = func(fr *frame, a []value) value { return "stub: rego compile error" }
 	in[regoPkg+".Query"] = func(fr *frame, a []value) value { return mkOpt(regoOpt{"query", a[0], nil}) }
 	in[regoPkg+".Module"] = func(fr *frame, a []value) value { return mkOpt(regoOpt{"module", a[0], a[1]}) }
 	in[regoPkg+".UnsafeBuiltins"] = func(fr *frame, a []value) value { return mkOpt(regoOpt{"unsafe", a[0], nil}) }
@@ -535,7 +554,8 @@ func registerEnvStubs(e *Engine) {
 		ps.env().logs = append(ps.env().logs, "rego.PrepareForEval")
 		pq := fr.i.zeroOf(regoPkg, "PreparedEvalQuery").(structure)
 		if ps.flagDecide("compile.err") {
-			return tuple{pq, errIface(fr.i, "stub: rego compile error")}
+			// compilation problems are reported as ast.Errors by the engine
+			return tuple{pq, iface{t: fr.i.eng.namedType("github.com/open-policy-agent/opa/ast", "Errors"), v: []value{}}}
 		}
 		// remember which Rego object this query came from
 		inner := pq[0].(structure)
@@ -561,6 +581,17 @@ func registerEnvStubs(e *Engine) {
 			m.insert("profile", iface{t: types.Typ[types.String], v: "stub-profile"})
 			for _, l := range []string{"violation", "warning", "info"} {
 				m.insert(l, iface{t: types.NewSlice(anyType), v: []value{}})
+			}
+			// the result is an uninterpreted function of the input: one violation that quotes the
+			// document marker found in the normalised input (if any)
+			if marker := evalInputMarker(a); marker != nil {
+				r := makeMap(types.Typ[types.String], 0).(*omap)
+				r.insert("@type", iface{t: types.NewSlice(anyType), v: []value{iface{t: types.Typ[types.String], v: "shacl:ValidationResult"}}})
+				r.insert("sourceShapeName", iface{t: types.Typ[types.String], v: "stub"})
+				r.insert("focusNode", iface{t: types.Typ[types.String], v: "n1"})
+				r.insert("resultMessage", iface{t: types.Typ[types.String], v: marker})
+				r.insert("trace", iface{t: types.NewSlice(anyType), v: []value{}})
+				m.insert("violation", iface{t: types.NewSlice(anyType), v: []value{iface{t: mt, v: r}}})
 			}
 			rv = iface{t: mt, v: m}
 		}
@@ -644,9 +675,8 @@ func registerEnvStubs(e *Engine) {
 				return s
 			}
 		}
-		if st, ok := (*p).(structure); ok { // zero bytes.Buffer written through the model below
-			_ = st
-			return ""
+		if st, ok := (*p).(structure); ok {
+			return bufferContent(fr.i.ps, st)
 		}
 		panic(unsupported{"bytes.Buffer.String on unmodelled buffer"})
 	}
@@ -690,7 +720,15 @@ func registerEnvStubs(e *Engine) {
 		}
 		panic(unsupported{"unicode.ToLower"})
 	}
+	// sync.Pool: Get hands back the most recently Put object when there is one (what the
+	// runtime does between collections), otherwise New()
 	in["(*sync.Pool).Get"] = func(fr *frame, a []value) value {
+		key := fmt.Sprintf("pool:%p", a[0].(*value))
+		if items, _ := fr.i.ps.store[key].([]value); len(items) > 0 {
+			it := items[len(items)-1]
+			fr.i.ps.store[key] = items[:len(items)-1]
+			return it
+		}
 		st := (*a[0].(*value)).(structure)
 		newFn := st[len(st)-1]
 		if f, ok := newFn.(*ssa.Function); ok && f == nil {
@@ -745,7 +783,12 @@ func registerEnvStubs(e *Engine) {
 	}
 	in["(*sync.Mutex).Lock"] = func(fr *frame, a []value) value { fr.i.ps.locked++; return nil }
 	in["(*sync.Mutex).Unlock"] = func(fr *frame, a []value) value { fr.i.ps.locked--; return nil }
-	in["(*sync.Pool).Put"] = func(fr *frame, a []value) value { return nil }
+	in["(*sync.Pool).Put"] = func(fr *frame, a []value) value {
+		key := fmt.Sprintf("pool:%p", a[0].(*value))
+		items, _ := fr.i.ps.store[key].([]value)
+		fr.i.ps.store[key] = append(items, a[1])
+		return nil
+	}
 	in["strings.Repeat"] = func(fr *frame, a []value) value {
 		return strings.Repeat(mustStr(a[0], "Repeat"), int(asInt64(a[1])))
 	}
@@ -884,4 +927,87 @@ func normSite(s string) string {
 		s = s[:i]
 	}
 	return s
+}
+
+type jsonDecoder struct{ reader value }
+
+type regoOpt struct {
+	kind string
+	a, b value
+}
+
+// bufferContent: the unread part of a bytes.Buffer (struct{buf []byte; off int; ...}).
+func bufferContent(ps *pathState, st structure) value {
+	buf, _ := st[0].([]value)
+	off := int(asInt64(st[1]))
+	if off > len(buf) {
+		off = len(buf)
+	}
+	ts := make([]*smt.Term, 0, len(buf)-off)
+	for _, b := range buf[off:] {
+		ts = append(ts, termOf(b))
+	}
+	return normStr(ps, ts)
+}
+
+func drainBuffer(p *value) {
+	st := (*p).(structure)
+	if buf, ok := st[0].([]value); ok {
+		st[1] = len(buf)
+	}
+}
+
+// evalInputMarker finds the document marker the Flatten stub planted, in the input given to Eval.
+func evalInputMarker(a []value) value {
+	if len(a) < 3 {
+		return nil
+	}
+	for _, o := range sliceOfStrings(a[2]) {
+		c, ok := o.(*closure)
+		if !ok || len(c.Env) == 0 {
+			continue
+		}
+		n, ok := c.Env[0].(nativeObj)
+		if !ok {
+			continue
+		}
+		if ro, ok := n.v.(regoOpt); ok && ro.kind == "input" {
+			if v := findMarker(ro.a, 0); v != nil {
+				return v
+			}
+		}
+	}
+	return nil
+}
+
+func findMarker(v value, depth int) value {
+	if depth > 8 {
+		return nil
+	}
+	switch x := v.(type) {
+	case iface:
+		return findMarker(x.v, depth+1)
+	case *omap:
+		if x == nil {
+			return nil
+		}
+		if m, ok := x.lookup("http://verif/doc"); ok {
+			if it, ok := m.(iface); ok {
+				return it.v
+			}
+			return m
+		}
+		for _, i := range x.liveIndices() {
+			if r := findMarker(x.vals[i], depth+1); r != nil {
+				return r
+			}
+		}
+	case []value:
+		for _, e := range x {
+			if r := findMarker(e, depth+1); r != nil {
+				return r
+			}
+		}
+	}
+	return nil
 }
